@@ -221,6 +221,54 @@ fn conc_save(books: &[Spreadsheet], st: &Value, id: &Value) -> Vec<Value> {
     events
 }
 
+/// {"a":"FreeSave","savers":[w,..],"rounds":R}: one free-running thread per saver (no yield hook: the operating
+/// system schedules them), all released together, each saving R times into memory.  Savers naming the same
+/// workbook share one object.  The outs are listed thread by thread, round by round.
+fn free_save(books: &[Spreadsheet], st: &Value, id: &Value) -> Vec<Value> {
+    let savers: Vec<usize> = st["savers"].as_array().unwrap().iter().map(|x| x.as_u64().unwrap() as usize).collect();
+    let rounds = st.get("rounds").and_then(|x| x.as_u64()).unwrap_or(1) as usize;
+    let n = savers.len();
+    let mut objs: std::collections::HashMap<usize, Arc<Spreadsheet>> = std::collections::HashMap::new();
+    for w in &savers {
+        objs.entry(*w).or_insert_with(|| Arc::new(books[*w - 1].clone()));
+    }
+    let gate = Arc::new(std::sync::Barrier::new(n));
+    let mut handles = vec![];
+    for i in 0..n {
+        let book = objs[&savers[i]].clone();
+        let gate = gate.clone();
+        handles.push(std::thread::spawn(move || {
+            let mut outs: Vec<Result<Vec<u8>, String>> = vec![];
+            for _ in 0..rounds {
+                gate.wait();
+                let r = catch_unwind(AssertUnwindSafe(|| {
+                    let mut buf: Vec<u8> = Vec::new();
+                    umya_spreadsheet::writer::xlsx::write_writer(&book, &mut buf).map(|_| buf).map_err(|e| format!("{:?}", e))
+                }));
+                outs.push(match r {
+                    Ok(x) => x,
+                    Err(_) => Err("panic".to_string()),
+                });
+            }
+            outs
+        }));
+    }
+    let mut outs = vec![];
+    let mut who = vec![];
+    for (i, h) in handles.into_iter().enumerate() {
+        let rs = h.join().unwrap_or_else(|_| (0..rounds).map(|_| Err("panic".to_string())).collect());
+        for r in rs {
+            who.push(json!(savers[i]));
+            outs.push(match r {
+                Ok(b) => json!({"outcome":"ok","hex":hex(&b)}),
+                Err(e) if e == "panic" => json!({"outcome":"panic","hex":""}),
+                Err(_) => json!({"outcome":"err","hex":""}),
+            });
+        }
+    }
+    vec![json!({"a":"Done","case":id,"leftovers":[],"savers":who,"outcome":"ok","outs":outs,"texts": all_texts(books)})]
+}
+
 fn run(case: &Value) -> Vec<Value> {
     let id = case["case"].clone();
     let steps = case["steps"].as_array().expect("steps");
@@ -231,6 +279,10 @@ fn run(case: &Value) -> Vec<Value> {
         let a = s(st, "a");
         if a == "ConcSave" {
             events.extend(conc_save(&books, st, &id));
+            continue;
+        }
+        if a == "FreeSave" {
+            events.extend(free_save(&books, st, &id));
             continue;
         }
         let mut hexout = String::new();
@@ -262,6 +314,17 @@ fn run(case: &Value) -> Vec<Value> {
                         cell.set_rich_text(rt);
                     } else {
                         cell.set_value_string(text);
+                    }
+                }
+                "Fill" => {
+                    // rows 1..n of column A get the labels in turn, starting with label number `off`
+                    let w = u(st, "w") as usize - 1;
+                    let name = if u(st, "sh") == 1 { "S1" } else { "S2" };
+                    let labels: Vec<String> = st["labels"].as_array().ok_or("labels")?.iter().map(|x| x.as_str().unwrap().to_string()).collect();
+                    let off = st.get("off").and_then(|x| x.as_u64()).unwrap_or(0) as usize;
+                    let ws = books[w].get_sheet_by_name_mut(name).ok_or("no sheet")?;
+                    for r in 1..=u(st, "n") {
+                        ws.get_cell_mut((1, r)).set_value_string(labels[(off + r as usize - 1) % labels.len()].clone());
                     }
                 }
                 "Delete" => {
